@@ -165,6 +165,22 @@ func dtlcpUnmarshalHeader(data []byte) (msgType uint8, bodyLen uint32, messageSe
 	return msgType, bodyLen, messageSeq, fragmentOffset, fragmentLength, body, true
 }
 
+// dtlcpIsCompleteMessage reports whether data is exactly one complete handshake message of
+// the given type: a 12-byte header with fragment_offset 0 whose length and fragment_length both
+// equal the number of body bytes that follow it. unmarshal only ever sees complete messages
+// (readHandshake reassembles fragments first), so anything else - trailing bytes, a partial
+// fragment, a length that disagrees with the data - is refused instead of being truncated,
+// zero-padded or ignored.
+func dtlcpIsCompleteMessage(data []byte, msgType uint8) bool {
+	if len(data) < dtlcpHeaderLen || data[0] != msgType {
+		return false
+	}
+	bodyLen := int(data[1])<<16 | int(data[2])<<8 | int(data[3])
+	fragOff := int(data[6])<<16 | int(data[7])<<8 | int(data[8])
+	fragLen := int(data[9])<<16 | int(data[10])<<8 | int(data[11])
+	return fragOff == 0 && fragLen == bodyLen && len(data)-dtlcpHeaderLen == bodyLen
+}
+
 // =============================================================================
 // clientHelloMsg
 // =============================================================================
@@ -319,6 +335,9 @@ func (m *clientHelloMsg) marshal() ([]byte, error) {
 }
 
 func (m *clientHelloMsg) unmarshal(data []byte) bool {
+	if !dtlcpIsCompleteMessage(data, typeClientHello) {
+		return false
+	}
 	*m = clientHelloMsg{raw: data}
 	msgType, bodyLen, messageSeq, fragmentOffset, fragmentLength, body, ok := dtlcpUnmarshalHeader(data)
 	if !ok || msgType != typeClientHello {
@@ -566,6 +585,9 @@ func (m *helloVerifyRequestMsg) marshal() ([]byte, error) {
 }
 
 func (m *helloVerifyRequestMsg) unmarshal(data []byte) bool {
+	if !dtlcpIsCompleteMessage(data, typeHelloVerifyRequest) {
+		return false
+	}
 	*m = helloVerifyRequestMsg{raw: data}
 	msgType, _, messageSeq, fragmentOffset, fragmentLength, body, ok := dtlcpUnmarshalHeader(data)
 	if !ok || msgType != typeHelloVerifyRequest {
@@ -683,6 +705,9 @@ func (m *serverHelloMsg) marshal() ([]byte, error) {
 }
 
 func (m *serverHelloMsg) unmarshal(data []byte) bool {
+	if !dtlcpIsCompleteMessage(data, typeServerHello) {
+		return false
+	}
 	*m = serverHelloMsg{raw: data}
 	msgType, _, messageSeq, fragmentOffset, fragmentLength, body, ok := dtlcpUnmarshalHeader(data)
 	if !ok || msgType != typeServerHello {
@@ -844,6 +869,9 @@ func (m *certificateMsg) marshal() ([]byte, error) {
 }
 
 func (m *certificateMsg) unmarshal(data []byte) bool {
+	if !dtlcpIsCompleteMessage(data, typeCertificate) {
+		return false
+	}
 	if len(data) < dtlcpHeaderLen+3 {
 		return false
 	}
@@ -950,6 +978,9 @@ func (m *serverKeyExchangeMsg) marshal() ([]byte, error) {
 }
 
 func (m *serverKeyExchangeMsg) unmarshal(data []byte) bool {
+	if !dtlcpIsCompleteMessage(data, typeServerKeyExchange) {
+		return false
+	}
 	if len(data) < dtlcpHeaderLen {
 		return false
 	}
@@ -1044,6 +1075,9 @@ if fragLen == 0 {
 }
 
 func (m *certificateRequestMsg) unmarshal(data []byte) bool {
+	if !dtlcpIsCompleteMessage(data, typeCertificateRequest) {
+		return false
+	}
 	m.raw = data
 
 	if len(data) < dtlcpHeaderLen+1 {
@@ -1170,6 +1204,9 @@ func (m *serverHelloDoneMsg) marshal() ([]byte, error) {
 }
 
 func (m *serverHelloDoneMsg) unmarshal(data []byte) bool {
+	if !dtlcpIsCompleteMessage(data, typeServerHelloDone) {
+		return false
+	}
 	if len(data) < dtlcpHeaderLen {
 		return false
 	}
@@ -1242,6 +1279,9 @@ func (m *clientKeyExchangeMsg) marshal() ([]byte, error) {
 }
 
 func (m *clientKeyExchangeMsg) unmarshal(data []byte) bool {
+	if !dtlcpIsCompleteMessage(data, typeClientKeyExchange) {
+		return false
+	}
 	if len(data) < dtlcpHeaderLen {
 		return false
 	}
@@ -1314,6 +1354,9 @@ func (m *certificateVerifyMsg) marshal() ([]byte, error) {
 }
 
 func (m *certificateVerifyMsg) unmarshal(data []byte) bool {
+	if !dtlcpIsCompleteMessage(data, typeCertificateVerify) {
+		return false
+	}
 	m.raw = data
 	msgType, _, messageSeq, fragmentOffset, fragmentLength, body, ok := dtlcpUnmarshalHeader(data)
 	if !ok || msgType != typeCertificateVerify {
@@ -1378,6 +1421,9 @@ func (m *finishedMsg) marshal() ([]byte, error) {
 }
 
 func (m *finishedMsg) unmarshal(data []byte) bool {
+	if !dtlcpIsCompleteMessage(data, typeFinished) {
+		return false
+	}
 	m.raw = data
 	msgType, bodyLen, messageSeq, fragmentOffset, fragmentLength, body, ok := dtlcpUnmarshalHeader(data)
 	if !ok || msgType != typeFinished {
